@@ -126,6 +126,7 @@ class SimWorld:
         self.cur_run = -1
         self.invocations: list[dict] = []   # leaf log
         self.exec_log: list[dict] = []      # executor log
+        self.run_inputs: list[dict] = []    # initial payload of every run (orchestrator seam)
         self.probes: dict[str, int] = {}
         self.sandbox = ""
         self._old_cwd = None
